@@ -244,12 +244,7 @@ func (nf *NetFed) Run(ctx context.Context, query, op string, vars map[string]int
 		d, e := nf.GW.Execute(rc, plans)
 		ch <- Outcome{Data: d, Err: e, Plans: plans}
 	}()
-	select {
-	case r := <-ch:
-		return r
-	case <-time.After(timeout):
-		return Outcome{Hung: true}
-	}
+	return awaitOutcome(ch, timeout)
 }
 
 // NetTwin runs one request through a default-configured gateway over the wire format and through the ordinary
